@@ -156,3 +156,22 @@ prop(
     must_see=[("duplicate_rejected_on_expected_shards", 300), ("distinct_input_accepted", 60), ("dup_classes", 10)],
     watchdog_s={"quick": 1200, "thorough": 7200},
 )
+
+prop(
+    "C03",
+    level="fault_enumeration",
+    rule=("(a) all 64 combinations of one multiplication's six intermediates: sum g_i*h_i over the u/v tables = -1/2 iff e = ab^cd^f; all 256 "
+          "positions of a storage block x 128 combinations of the seven recorded bits: prover and both verifier table indices equal the "
+          "reference. (b) batches built directly on the three helpers from a reference three-party multiplication model, segment widths "
+          "{1,3,8,20,32,64,256,512} x sizes straddling the recursion boundaries (1,2,3,4,5,7,15,16,17,31,33,64 blocks) x 1-4 gates per batch "
+          "x implicit/explicit first record, validated by the real Batch::validate on three helpers: honest => all Ok; one recorded bit "
+          "(helper x gate x record x one of the 7 arrays x bit) flipped => at least one helper rejects (thorough: all 7x256x3 single-bit flips "
+          "of one block). (c) real select / multiply protocols over BA3..BA256 under dzkp_validator in validate() and validate_record modes "
+          "(1-5 batches): honest => Ok; one transmitted multiplication bit flipped by the interceptor => some helper rejects (faults on proof "
+          "messages are recorded as observations only). distinct = (shape) / (flip class) / (type, step family, sender)"),
+    assumptions=["soundness error of the proof system (~2^-50 per batch) is ignored", "TARGET_PROOF_SIZE = 8192 (cfg(test))"],
+    shards={"quick": 16, "thorough": 16},
+    min_evaluations={"quick": 30000, "thorough": 40000},
+    must_see=[("honest_batch_accepted", 20), ("flipped_batch_rejected", 60), ("transmitted_flip_rejected", 20), ("block_position_indices_ok", 32768)],
+    watchdog_s={"quick": 1200, "thorough": 7200},
+)
